@@ -208,11 +208,19 @@ def run(sid, checks):
         m = json.load(open(mp)); m.setdefault('checks', {}).update(res); json.dump(m, open(mp, 'w'), indent=1)
 
 
-EXTRA = {'C02-5': ['C01', 'C14'], 'C02-6': ['C14'], 'C01-5': ['C07'], 'C06-5': ['C05'], 'C06-6': ['C07'], 'C17-4': ['C16'], 'C17-3': ['C16'], 'C03-4': ['C14'], 'C14-4': ['C03'], 'C14-3': ['C05'], 'C07-4': ['C06'], 'C15-4': ['C01'], 'C02-3': ['C01'], 'C04-3': ['C07'], 'C04-4': ['C07'], 'C05-3': [], 'C05-4': ['C06'], 'C06-3': [], 'C06-4': ['C05'], 'C07-1': ['C05', 'C06'], 'C07-2': ['C04'], 'C14-2': ['C04'], 'C18-2': ['C04'], 'C16-2': ['C06'], 'C11-1': ['C13'], 'C17-1': ['C18'], 'C01-2': ['C07'], 'C01-1': ['C02'], 'C05-1': ['C06'], 'C05-2': ['C06', 'C07'],
+EXTRA = {'C11-8': [], 'C04-7': ['C14'], 'C14-7': [], 'C02-8': ['C14'], 'C12-8': ['C13'], 'C16-7': ['C17'], 'C17-7': ['C16'], 'C17-8': ['C11'], 'C15-8': [], 'C01-8': ['C07'], 'C07-7': ['C01'], 'C05-8': ['C06'], 'C18-8': ['C04'], 'C02-5': ['C01', 'C14'], 'C02-6': ['C14'], 'C01-5': ['C07'], 'C06-5': ['C05'], 'C06-6': ['C07'], 'C17-4': ['C16'], 'C17-3': ['C16'], 'C03-4': ['C14'], 'C14-4': ['C03'], 'C14-3': ['C05'], 'C07-4': ['C06'], 'C15-4': ['C01'], 'C02-3': ['C01'], 'C04-3': ['C07'], 'C04-4': ['C07'], 'C05-3': [], 'C05-4': ['C06'], 'C06-3': [], 'C06-4': ['C05'], 'C07-1': ['C05', 'C06'], 'C07-2': ['C04'], 'C14-2': ['C04'], 'C18-2': ['C04'], 'C16-2': ['C06'], 'C11-1': ['C13'], 'C17-1': ['C18'], 'C01-2': ['C07'], 'C01-1': ['C02'], 'C05-1': ['C06'], 'C05-2': ['C06', 'C07'],
          'C06-1': ['C05'], 'C06-2': ['C05'], 'C03-1': ['C14'], 'C15-2': ['C14']}
 
 
 NOTES = {
+ 'C04-7': 'first run inconclusive (kernel-stubbed counterexamples did not reproduce natively): obligation `curve_at_height` added - every kernel call of a swap is made on a calculator built from the stored ramp and the current block HEIGHT',
+ 'C13-7': 'missed at first: snapshot-then-expand order added to the share part (a change after the snapshot counts from the next epoch on)',
+ 'C16-7': 'missed at first: ownership transfer of the three-asset pool (alone, together with a ramp, together with every other option) followed by a privileged call of a symbolic caller added',
+ 'C17-8': 'missed by C17 at first (C11 caught it): the helper\'s reply-failure obligation now also runs under C17',
+ 'C18-7': 'missed at first: partial distributor updates (grace period and epoch configuration independently present or absent) added',
+ 'C19-8': 'first run crashed (sort_by_key on text keys not modelled) and the listings held no entry whose text order differs from its raw byte order: model added, mixed-order registry (native denom before a cw20 address, two cw20 addresses) added with a vacuity guard',
+ 'C08-8': 'first run: the check SCRIPT failed (global per-denom list read by position); now read by denom, and an exception inside a check script exits 2 (inconclusive) instead of 1',
+ 'C07-7': 'caught by C01 (the reserves a deposit is priced against); the C07 ledger obligations are not affected by this change',
  'C07-5': 'missed at first: pool assets with token-factory / ibc shaped denoms added (burn and transfer handling must not depend on the shape of a denom)',
  'C14-6': 'missed at first: router ReverseSimulateSwapOperations chain (last hop backwards) added; pair answers keyed by free symbolic amounts so a wrong order is a counterexample, not an unanswered query',
  'C17-6': 'missed at first: migration part added (real migrate entry of vault 1.1.3 and pair 1.1.0 with symbolic switches; models for cw2 / semver; migrate entry in the native runner)',
